@@ -33,7 +33,8 @@ Record copts : Type := mkOpts {
 Record lctx : Type := mkL {
   l_sub_ret : option ty;            (* Some return_type inside a subroutine *)
   l_brk : option id;                (* loop exit target *)
-  l_cont : option id                (* continue target *)
+  l_cont : option id;               (* continue target *)
+  l_param : N -> instr              (* the instruction that loads parameter i in this routine *)
 }.
 
 Definition field_arg (imms : list arg) : option string :=
@@ -97,6 +98,7 @@ Fixpoint check_expr (o : copts) (sub : option ty) (in_loop : bool) (e : expr) {s
   | EWide ns ds =>
       if N.ltb (o_version o) 5 then Some ErrCompile
       else first_err (map (chk in_loop) ns ++ map (chk in_loop) ds)
+  | EParam _ => None
   end.
 
 (* Continue in a position where its target is the fragment under construction (a loop header):
@@ -114,6 +116,7 @@ Fixpoint has_bad_continue (pos_bad : bool) (e : expr) {struct e} : bool :=
   | EReturn (Some v) | EExit v => has_bad_continue pos_bad v
   | EReturn None | EBreak => false
   | EWide ns ds => existsb (has_bad_continue pos_bad) ns || existsb (has_bad_continue pos_bad) ds
+  | EParam _ => false
   end.
 
 (* ---- lowering ---- *)
@@ -282,16 +285,16 @@ Fixpoint lower (o : copts) (c : lctx) (e : expr) (k : option id) (g : graph) {st
   | EWhile cnd body =>
       let '(en, g1) := add_block g (BSimple [] k) in
       let '(br, g2) := reserve g1 in
-      let '((cs, _), g3) := lower o (mkL (l_sub_ret c) (Some en) None) cnd (Some br) g2 in
-      let '((ds, _), g4) := lower o (mkL (l_sub_ret c) (Some en) (Some cs)) body (Some cs) g3 in
+      let '((cs, _), g3) := lower o (mkL (l_sub_ret c) (Some en) None (l_param c)) cnd (Some br) g2 in
+      let '((ds, _), g4) := lower o (mkL (l_sub_ret c) (Some en) (Some cs) (l_param c)) body (Some cs) g3 in
       ((cs, en), define g4 br (BCond [] (Some ds) (Some en)))
   | EFor ini cnd stp body =>
       let '(en, g1) := add_block g (BSimple [] k) in
       let '(br, g2) := reserve g1 in
-      let inner := mkL (l_sub_ret c) (Some en) None in
+      let inner := mkL (l_sub_ret c) (Some en) None (l_param c) in
       let '((cs, _), g3) := lower o inner cnd (Some br) g2 in
       let '((ss, _), g4) := lower o inner stp (Some cs) g3 in
-      let '((ds, _), g5) := lower o (mkL (l_sub_ret c) (Some en) (Some ss)) body (Some ss) g4 in
+      let '((ds, _), g5) := lower o (mkL (l_sub_ret c) (Some en) (Some ss) (l_param c)) body (Some ss) g4 in
       let '((is_, _), g6) := lower o inner ini (Some cs) g5 in
       ((is_, en), define g6 br (BCond [] (Some ds) (Some en)))
   | EBreak =>
@@ -330,4 +333,6 @@ Fixpoint lower (o : copts) (c : lctx) (e : expr) (k : option id) (g : graph) {st
       let '((dstart, _), g2) := lower_factors lw ds (Some cb) g1 in
       let '((nstart, _), g3) := lower_factors lw ns (Some dstart) g2 in
       ((nstart, cb), g3)
+  | EParam i =>
+      let '(b, g1) := add_block g (BSimple [l_param c i] k) in ((b, b), g1)
   end.
